@@ -574,6 +574,36 @@ def _relabel6(rng, lm):
     return out
 
 
+def _big_modify(lm, other, kind, ix):
+    """`other` (a storage of `lm`: same order or relabelled) with ONE change at the entity that has index `ix` in `lm`
+    (found in `other` through its pairwise distinct field value): coord / pfield / cfield / rewire"""
+    n, ncell = len(lm["points"]), len(lm["cells"][0][1])
+    m = {"dim": other["dim"], "points": other["points"], "cells": other["cells"], "pf": other["pf"], "cf": other["cf"]}
+    if kind in ("coord", "pfield"):
+        pos = other["pf"][0]["v"].index(lm["pf"][0]["v"][ix % n])
+        if kind == "coord":
+            m["points"] = list(other["points"])
+            m["points"][pos] = [m["points"][pos][0] + 0.37] + list(m["points"][pos][1:])
+        else:
+            f = dict(other["pf"][0], v=list(other["pf"][0]["v"]))
+            f["v"][pos] += 0.125
+            m["pf"] = [f]
+    else:
+        pos = other["cf"][0]["v"].index(lm["cf"][0]["v"][ix % ncell])
+        if kind == "cfield":
+            f = dict(other["cf"][0], v=list(other["cf"][0]["v"]))
+            f["v"][pos] += 1
+            m["cf"] = [f]
+        else:
+            t, rws = other["cells"][0]
+            rws = list(rws)
+            row = list(rws[pos])
+            row[-1] = next(q for q in range(n) if q not in row and (q + 1) % n not in row)
+            rws[pos] = row
+            m["cells"] = [[t, rws]]
+    return m
+
+
 def p6g_batch(ctx, rows):
     """directed batches for dimensions of the quantifier sampled at one point only before (notes/PHASE6_G1m_audit.md).
     FCV_P6G_OFF=1 switches them off."""
@@ -675,32 +705,7 @@ def p6g_batch(ctx, rows):
             for k, ix in enumerate(idxs):
                 kinds = ["coord", "pfield", "cfield", "rewire"] if n < 60000 else [["coord", "cfield", "pfield", "rewire"][k % 4]]
                 for kind in kinds:
-                    m = {"dim": other["dim"], "points": other["points"], "cells": other["cells"], "pf": other["pf"], "cf": other["cf"]}
-                    # the entity with ORIGINAL index ix: find where it is stored in `other` through its distinct field value
-                    if kind in ("coord", "pfield"):
-                        p0 = ix % n
-                        pos = other["pf"][0]["v"].index(lm["pf"][0]["v"][p0])
-                        if kind == "coord":
-                            m["points"] = list(other["points"])
-                            m["points"][pos] = [m["points"][pos][0] + 0.37] + list(m["points"][pos][1:])
-                        else:
-                            f = dict(other["pf"][0], v=list(other["pf"][0]["v"]))
-                            f["v"][pos] += 0.125
-                            m["pf"] = [f]
-                    else:
-                        c0 = ix % ncell
-                        pos = other["cf"][0]["v"].index(lm["cf"][0]["v"][c0])
-                        if kind == "cfield":
-                            f = dict(other["cf"][0], v=list(other["cf"][0]["v"]))
-                            f["v"][pos] += 1
-                            m["cf"] = [f]
-                        else:
-                            t, rws = other["cells"][0]
-                            rws = list(rws)
-                            row = list(rws[pos])
-                            row[-1] = next(q for q in range(n) if q not in row and (q + 1) % n not in row)
-                            rws[pos] = row
-                            m["cells"] = [[t, rws]]
+                    m = _big_modify(lm, other, kind, ix)
                     mut_fc = mg6.to_fc_storage(m, st)
                     for role in (("mutated-as-source", "mutated-as-reference") if ctx.tier == "thorough" and n < 60000 else
                                  (("mutated-as-source",) if (k + len(kind)) % 2 else ("mutated-as-reference",))):
@@ -712,7 +717,7 @@ def p6g_batch(ctx, rows):
                             small.update({"kind": "p6g-storage", "src": m if s is mut_fc else lm, "ref": lm if s is mut_fc else m,
                                           "st_src": st, "st_ref": st})
                         else:
-                            small["regenerate"] = "mg6.big_lattice(260, 256, dim=3, style='quad'); see c03.p6g_batch (c)"
+                            small["lattice"] = [260, 256, 3, "quad"]        # regenerated by replay()
                         _fails(ctx, small, s, r, ["p6g-big", f"p6g-npoints={n}", "site-big-" + kind, variant, role,
                                                   f"p6g-index={ix}"],
                                f"{n} points: single-site modification '{kind}' at original index {ix} but the comparison passes")
@@ -1057,8 +1062,21 @@ def replay(ctx, payload):
             return 1
         return 0
     if case.get("kind") == "p6g-big":
-        print("replay: big generated pair, not stored in the payload:", case)
-        return 1
+        import random
+        nx, ny, dim, style = case["lattice"]
+        lm = mg6.big_lattice(nx, ny, dim=dim, style=style)
+        other = mg6.fast_relabel(random.Random(0), lm, "identity" if case["variant"] == "same-order" else "random")
+        st = {"pts": "<f8", "layout": "C", "conn": "i32", "fields": "C"}
+        mut_fc, ref_fc = mg6.to_fc_storage(_big_modify(lm, other, case["site"], case["index"]), st), mg6.to_fc_storage(lm, st)
+        s_, r_ = (mut_fc, ref_fc) if case["role"] == "mutated-as-source" else (ref_fc, mut_fc)
+        impl = run_comparator(s_, r_, [False, False, False])
+        print(f"replay: {len(lm['points'])}-point lattice ({case['variant']}), '{case['site']}' changed at original index {case['index']}, "
+              f"{case['role']}: comparator (domain,suite)={impl}")
+        if impl[-1] == "1" and not impl.startswith("X:"):
+            print(f"VIOLATION property=C03 replay={payload.get('_path', '<replay>')}")
+            return 1
+        print("replay: no violation")
+        return 0
     if case.get("kind") == "p6g-storage":
         src, ref = mg6.to_fc_storage(case["src"], case["st_src"]), mg6.to_fc_storage(case["ref"], case["st_ref"])
         impl = run_comparator(src, ref, case.get("flags", [False, False, False]))
